@@ -552,4 +552,33 @@ def gaussReducedDm {K : Type} [Mul K] (cj : K → K) (n : Nat) (modes : List Nat
   else if isPure && modes.length == n then .ok (modes.length, trList (dmAxes modes.length) (outerKet modes.length cj ψ))
   else .ok (modes.length, T)
 
+/-! ## bosonic `fidelity_coherent`, `purity`, `wigner`: what is handed to `exp` / `det` / `inv`
+
+Components are `(weight, (mu, cov))` in the xpxp ordering of the bosonic state object. -/
+
+/-- `fidelity_coherent(alpha_list)`: per component `(weight, deltas = mus − alpha_mean, cov_sum = covs + ħ/2 · 1)`;
+`sq = sqrt(2ħ)`, `h2 = ħ/2`; the value is `ħⁿ Σ w · exp(−½ δᵀ cov_sum⁻¹ δ) / sqrt(det cov_sum)` -/
+def bosonicFidelityArgs {K : Type} [Zero K] [Add K] [Sub K] [Mul K] (sq h2 : K) (alphaRe alphaIm : Nat → K)
+    (comps : List (K × GData K)) : List (K × GData K) :=
+  comps.map fun p =>
+    (p.1, { mu := fun a => p.2.mu a - (if a % 2 = 0 then alphaRe (a / 2) * sq else alphaIm (a / 2) * sq)
+            cov := fun a b => p.2.cov a b + (if a = b then h2 else 0) })
+
+/-- `purity()`: for the outer component `i` and every component `j`: `(w_j · w_i, μ_i − μ_j, cov_j + cov_i)`; the value is
+`ħⁿ Σ w · exp(−½ δᵀ Σ⁻¹ δ) / sqrt(det Σ)` -/
+def bosonicPurityArgs {K : Type} [Add K] [Sub K] [Mul K] (comps : List (K × GData K)) : List (K × GData K) :=
+  comps.flatMap fun pi => comps.map fun pj =>
+    (pj.1 * pi.1, { mu := fun a => pi.2.mu a - pj.2.mu a, cov := fun a b => pj.2.cov a b + pi.2.cov a b })
+
+/-- `wigner(mode, x, p)` at one grid point, per component of the reduced one-mode state: `(weight, δᵀ adj(cov) δ, det cov)` with
+`δ = (x − μ_x, p − μ_p)`; the value is `Σ w · exp(−½ · first / second) / (2π sqrt(second))` -/
+def bosonicWignerArgs {K : Type} [Add K] [Sub K] [Mul K] (x p : K) (comps : List (K × GData K)) : List (K × K × K) :=
+  comps.map fun c =>
+    (c.1, parity1 { mu := fun a => if a = 0 then x - c.2.mu 0 else p - c.2.mu 1, cov := c.2.cov })
+
+/-- one-mode bosonic `parity_expectation([mode])`, per component `(weight, μᵀ adj(cov) μ, det cov)`; the value is
+`(ħ/2) Σ w · exp(−½ · first / second) / sqrt(second)` -/
+def bosonicParityArgs1 {K : Type} [Add K] [Sub K] [Mul K] (comps : List (K × GData K)) : List (K × K × K) :=
+  comps.map fun c => (c.1, parity1 c.2)
+
 end SFV.States
